@@ -158,10 +158,15 @@ struct Driver {
         std::string t = outs[H((uint32_t)outs.size())];
         // an output only a dyndep file declares is not a name ninja knows on the
         // command line; in the inlined variant it is (C11 compares like with like)
-        if (prof.twin_dyndep) {
-          bool dyn_only = false;
+        {
+          bool dyn_only = false, named = false;
           for (auto& dd : w.sc.dyndeps) for (auto& e : dd.entries) for (auto& o : e.imp_outs) if (o == t) dyn_only = true;
-          if (dyn_only) continue;
+          if (dyn_only && prof.twin_dyndep) continue;
+          // ... and when another statement names it in the manifest, ninja knows the path but not, before
+          // the dyndep file is read, who makes it: asked for by name alone it is a plain file (the way
+          // dyndep works, not a behaviour any property describes), so it is not asked for by name
+          if (dyn_only) for (const Stmt& q : w.sc.stmts) if (q.alive) for (auto* v : {&q.ins, &q.imp_ins, &q.oo_ins}) if (std::find(v->begin(), v->end(), t) != v->end()) named = true;
+          if (named) continue;
         }
         if (std::find(p.targets.begin(), p.targets.end(), t) == p.targets.end()) p.targets.push_back(t);
       }
@@ -906,6 +911,10 @@ struct Driver {
     int n = (int)H((uint32_t)maxn + 1);
     for (int i = 0; i < n && !outs.empty(); i++) {
       std::string x = outs[H((uint32_t)outs.size())];
+      bool dyn_named = false;   // (see MakeBuildPlan: a dyndep-declared output that the manifest names as an input)
+      for (auto& dd : w.sc.dyndeps) for (auto& e : dd.entries) for (auto& o : e.imp_outs) if (o == x)
+        for (const Stmt& q : w.sc.stmts) if (q.alive) for (auto* v : {&q.ins, &q.imp_ins, &q.oo_ins}) if (std::find(v->begin(), v->end(), x) != v->end()) dyn_named = true;
+      if (dyn_named) continue;
       if (std::find(t.begin(), t.end(), x) == t.end()) t.push_back(x);
     }
     return t;
